@@ -193,7 +193,7 @@ def img_tokens(a):
 class C17(Prop):
     id = "C17"
     anchored = ["src/pewlib/io/imzml.py"]
-    cases = {"quick": 1500, "thorough": 20000}
+    cases = {"quick": 1200, "thorough": 20000}
     rule = ("documents of the layout predicate `Pew.FastParse.Layout` (decided by the driver for every case): 1..7 spectra in any "
             "order incl. repeated positions and positions/offsets with many digits, TIC absent or written as integer/decimal/"
             "exponent/signed text, image size present or absent, 1..3 scanSettings, extra param groups, extra cvParam/userParam/"
@@ -226,9 +226,11 @@ class C17(Prop):
             "extraction function (extract_tic, extract_masses by m/z and by ppm width, mass_range, binned_masses) is run on both "
             "parsers' objects of every case with data and compared bit for bit. "
             "non-trivial = any of these layout-noise classes; distinct by canonical case hash")
-    trusted = ["xml.etree.ElementTree and `re` behave as documented; the abstract-line tokenisation of the rendered text is validated "
-               "only by this differential run (harness renders text, driver renders abstract lines from the same description; the "
-               "harness checks that the text lines at the driver's `callLine` indices are the <spectrumList>/<spectrum> lines)",
+    trusted = ["xml.etree.ElementTree and `re` behave as documented (the model's `reSearch` is a hand-written matcher for the one "
+               "regular expression of the parser); the text of every generated file is classified line by line by the model's "
+               "`tokenise` (str.strip, startswith, find, the regular expression, on characters) and must agree with the abstract lines "
+               "rendered from the document description up to `Line.norm` (else internal error); the mechanism model runs on the "
+               "tokenised text",
                "int()/float() of the selected attribute text is applied by the harness to the model's output (both parsers call the same functions)",
                "the conversions of the image functions are the model's: `pyNat` (int() of a digit text), `pyFloat` (float() of a decimal "
                "text = the nearest binary64, assuming CPython's correctly rounded conversion) and C05's `readValues` on the bytes of the "
@@ -612,7 +614,8 @@ class C17(Prop):
         named = [it for items in self.item_lists(doc) for it in items if it["t"] in ("cv", "user")]
         inspec = [it for sp in doc["spectra"] for items in [sp["items"], sp["tail"]] + sp["scans"] for it in items if it["t"] in ("cv", "user")]
         for it in (rng.sample(named, min(2, len(named))) + (rng.sample(inspec, 1) if inspec else [])):
-            it["name"] = (it.get("name", "p") + " ") + "".join(rng.choice("abc xyz_.-()") for _ in range(ll["len"]))
+            block = "".join(rng.choice("abc xyz_.-()=") for _ in range(61))
+            it["name"] = (it.get("name", "p") + " ") + (block * (ll["len"] // 61 + 1))[:ll["len"]]
         return doc
 
     def with_entity(self, doc, ent):
@@ -851,7 +854,7 @@ class C17(Prop):
         else:
             raise core.InternalError("bad edit %r" % (e,))
 
-    def run_history(self, ctx, imzml, case, doc, path, ibd0, lens, held, feats):
+    def run_history(self, ctx, imzml, case, doc, path, ibd0, lens, texts, held, feats):
         """the imports of `case["hist"]` after the three imports every case makes (fast, XML, fast with callback: `held` are the
         objects those returned), in the same process on the same path.  Returns (impl, model, spec, ok) for the outcome"""
         hist = case["hist"]
@@ -934,7 +937,9 @@ class C17(Prop):
                 impl_steps[-1]["positions"] = calls
             edits(st.get("edits", []))
 
-        rep = ctx.driver.call("c17.history", doc=doc, lens=lens, cls="any", bins=bins if exact else [None, None], ops=ops)
+        rep = ctx.driver.call("c17.history", doc=doc, lens=lens, texts=texts, cls="any", bins=bins if exact else [None, None], ops=ops)
+        if not rep["tokens_ok"]:
+            raise core.InternalError("history: tokenised text differs from the abstract lines")
         if not rep["layout"]:
             raise core.InternalError("history on a document outside the layout")
         results, specs, cbs = rep["results"][3:], rep["spec"][3:], rep["callbacks"][3:]
@@ -1006,9 +1011,17 @@ class C17(Prop):
         abort = case["abort"]
         if abort is not None and not 0 <= abort < nspec:
             abort = None
+        # the text of the file, line by line, for the model's tokeniser (`tokenise`: the code's string tests on characters)
+        texts = text.split("\n")
+        if not tv.get("no_final_newline"):
+            texts = texts[:-1]
+        if len(texts) > 20000:        # (documents of a thousand spectra: the check of the callback lines below only, for time)
+            texts = None
 
-        rep = ctx.driver.call("c17.parse", doc=doc, lens=lens, cls="any", cb=self.cb_req(case, abort),
+        rep = ctx.driver.call("c17.parse", doc=doc, lens=lens, texts=texts, cls="any", cb=self.cb_req(case, abort),
                               bin=None if entity is not None else self.bin_req(case["data"], ibd))
+        if not rep["tokens_ok"]:
+            raise core.InternalError("the text lines, classified by the model's tokeniser, are not the abstract lines of the document")
         in_layout = bool(rep["layout"])
         if not in_layout and not (entity is not None and rep["layout_core_decoded"] and not rep["text_ok"]):
             raise core.InternalError("generated document is outside the layout predicate")
@@ -1132,7 +1145,7 @@ class C17(Prop):
         hist_ok = True
         if case.get("hist") is not None:
             held = [o for o in (fast, xml, r) if not isinstance(o, Exception)]
-            hi, hm, hs, hist_ok, hexact = self.run_history(ctx, imzml, case, doc, path, ibd, lens, held, feats)
+            hi, hm, hs, hist_ok, hexact = self.run_history(ctx, imzml, case, doc, path, ibd, lens, texts, held, feats)
             impl["history"], model["history"], spec["history"] = hi, hm, hs
             self.history_features(case, feats, hexact)
         spec_ok = cb_ok and hist_ok and core.canon({k: v for k, v in impl.items()}) == core.canon(spec)
